@@ -65,8 +65,8 @@ theorem releaseIfUsed_wf {cfg : Cfg} (c : C) (id : Nat) (h : PidWf cfg c.s.pidMa
 /-- the non-oversize arm of the `send_stored` loop: count the exchange, request the send -/
 def bump (c : C) (p : Pkt) : C :=
   let c := if c.s.sendMax.isSome then
-      (if c.s.sendCount ≥ 65535 then c.setPanic "core.rs:send_stored:publish_send_count+=1" else c)
-      |> fun c => { c with s := { c.s with sendCount := (c.s.sendCount + 1) % 65536 } }
+      (if c.s.sendCount ≥ 4294967295 then c.setPanic "core.rs:send_stored:publish_send_count+=1" else c)
+      |> fun c => { c with s := { c.s with sendCount := (c.s.sendCount + 1) % 4294967296 } }
     else c
   c.push (.send p none)
 
@@ -94,7 +94,7 @@ theorem bump_ws (c : C) (X : Sess) (p : Pkt) : bump (c.ws X) p = (bump c p).ws X
   have e2 : (c.ws X).s.sendCount = c.s.sendCount := rfl
   simp only [e1, e2]
   by_cases h1 : c.s.sendMax.isSome = true
-  · by_cases h2 : c.s.sendCount ≥ 65535
+  · by_cases h2 : c.s.sendCount ≥ 4294967295
     · simp only [h1, h2, if_true]; rfl
     · simp only [h1, h2, if_true, if_false]; rfl
   · simp only [h1, if_false, Bool.false_eq_true]; rfl
@@ -102,7 +102,7 @@ theorem bump_ws (c : C) (X : Sess) (p : Pkt) : bump (c.ws X) p = (bump c p).ws X
 theorem bump_sess (c : C) (p : Pkt) : (bump c p).s.sess = c.s.sess ∧ (bump c p).cfg = c.cfg := by
   unfold bump
   by_cases h1 : c.s.sendMax.isSome = true
-  · by_cases h2 : c.s.sendCount ≥ 65535
+  · by_cases h2 : c.s.sendCount ≥ 4294967295
     · simp only [h1, h2, if_true]; exact ⟨rfl, rfl⟩
     · simp only [h1, h2, if_true, if_false]; exact ⟨rfl, rfl⟩
   · simp only [h1, if_false, Bool.false_eq_true]; exact ⟨rfl, rfl⟩
